@@ -338,6 +338,7 @@ Example history_example7 :
   let '(o1, C1) := model_obs_st UrlTupleCompare hist_case cold in
   let '(o2, C2) := model_obs_st UrlTupleCompare hist_case C1 in
   o1 = o2 /\ o1 = model_obs UrlTupleCompare hist_case /\
-  length (c_join C1) = length (c_join C2) /\ negb (Nat.eqb (length (c_join C1)) 0) = true /\
+  length (c_join C1) = length (c_join C2) /\
+  (Nat.eqb lru_join_path_tuple 0 || negb (Nat.eqb (length (c_join C1)) 0))%bool = true /\   (* no memo on _join_path_tuple since 883ea66 *)
   negb (Nat.eqb (length (c_seg C1)) 0) = true /\ negb (Nat.eqb (length (c_spi C1)) 0) = true.
 Proof. vm_compute. repeat split; reflexivity. Qed.
